@@ -14,6 +14,51 @@ func init() {
 	scenarios["trap.closerace"] = scTrapCloseRace
 	scenarios["trap.chanclose"] = scTrapChanClose
 	scenarios["trap.subcancel"] = scTrapSubCancel
+	scenarios["trap.chanval"] = scTrapChanVal
+}
+
+// trap.chanval (WsRpc: ExLookup of a "val" frame followed by MainCloseChans): the executor is handing a channel value to the
+// subscription's sink when the peer drops the connection and the main loop sweeps the channel handlers. The sweep waits for the
+// hand-over (or the hand-over sees the sink closed in an orderly way); nothing crashes, nothing stays blocked, the client heals.
+func scTrapChanVal(w *World, a Args, rng *rand.Rand) error {
+	c, err := w.NewClient(ClientOpts{Name: "A", NoPing: true, BackoffMin: 2 * time.Millisecond, BackoffMax: 5 * time.Millisecond})
+	if err != nil {
+		return err
+	}
+	step := make(chan struct{}, 8)
+	w.Plan(3, &Plan{Step: step, NoClose: true, NoCloseMs: 1000})
+	d := make(chan struct{})
+	go func() {
+		ch, out := c.Subscribe(context.Background(), 3, 3, "")
+		if out == "ok" && ch != nil {
+			w.Consume(3, ch, nil, d)
+		} else {
+			close(d)
+		}
+	}()
+	w.WaitRunning(3, time.Second)
+	time.Sleep(5 * time.Millisecond)
+	w.Rec.Gate("sink.val.pre")
+	sweep := w.Rec.Watch("closechans.pre@client")
+	step <- struct{}{} // one value travels to the client; its hand-over to the sink is held
+	if w.Rec.WaitParked("sink.val.pre", 2*time.Second) {
+		w.Rec.Emit("WireFault", "conn", 1, "fault", "kill/fin", "dir", "both", "frame", 0)
+		w.Proxy.Last().Kill("fin")
+		waitCh(sweep, 2*time.Second)
+		time.Sleep(20 * time.Millisecond)
+	}
+	w.Rec.OpenAll()
+	waitCh(d, patience(3*time.Second))
+	w.Release(3)
+	dl := time.Now().Add(patience(3 * time.Second))
+	for tok := 6; tok < 6+40*10 && time.Now().Before(dl); tok += 10 {
+		if out := c.CallT("unary", tok, patience(2*time.Second)); out == "ok" || out == "pending" {
+			break
+		}
+		time.Sleep(3 * time.Millisecond)
+	}
+	w.Quiesce(c, 1000, 2*time.Second)
+	return nil
 }
 
 // trap.subcancel (WsRpc: CtxCancel while cst = "wait" with the main loop inside MainWrite, then ExRegChan / ExDeliver): the caller
